@@ -310,7 +310,17 @@ func runSchedule(size int, errcb bool, ops []opT) schedResult {
 			maxid = id
 		}
 	}
-	for id := 0; id <= maxid; id++ {
+	// jobs accepted during the cleanup above (a NewJob call that was still blocked) are not part of the schedule
+	accepted := 0
+	for _, ob := range res.obs {
+		if ob.R1 == 1 {
+			accepted++
+		}
+		if ob.R2 == 1 {
+			accepted++
+		}
+	}
+	for id := 0; id <= maxid && id < accepted; id++ {
 		res.inv = append(res.inv, inv[id])
 	}
 	res.errfs = append([]int{}, errfs...)
